@@ -68,7 +68,7 @@ func observe(r *replica.Replica, blk *types.Block, err error) obs {
 		}
 	}
 	o.Receipts = strings.Join(rs, ",")
-	o.Image = world.SharedImage(replica.Snapshot(r.DB)).Hash().Hex()[:14]
+	o.Image = world.ConsensusImage(replica.Snapshot(r.DB)).Hash().Hex()[:14]
 	return o
 }
 
@@ -220,7 +220,13 @@ func newModel(thorough bool) *chainprop.Model {
 	m := &chainprop.Model{Menu: world.Menu()}
 	m.Std()
 	m.Scn, m.Opts, m.Prefix = append(m.Scn, "G4-300-verified(real epoch length)"), append(m.Opts, g4()), append(m.Prefix, nil)
+	cn, co, cp := chainprop.CeremonyScenario()
+	m.Scn, m.Opts, m.Prefix = append(m.Scn, cn), append(m.Opts, co), append(m.Prefix, cp)
 	m.StdDrive()
+	m.Acts = append(m.Acts,
+		m.FullCeremony("ceremony(all five answer)", []string{"V1", "V2", "N1", "C1", "G"}, []string{"good", "good", "mostly", "good", "mixed"}, []string{"V1", "V2", "N1", "G"}),
+		m.FullCeremony("ceremony(V2,N1,C1 answer)", []string{"V2", "N1", "C1"}, []string{"good", "good", "good"}, []string{"V2", "N1"}),
+	)
 	m.Acts = append(m.Acts,
 		m.Drive("send X1->X2 1", "send X2 second", "online V2", "kill D1"),
 		m.Drive("call contract0 transfer->X2 1 by owner X1", "fund contract0 X2 5", "terminate contract0 by X2 (not owner)"),
@@ -259,10 +265,18 @@ func newModel(thorough bool) *chainprop.Model {
 			return false
 		}
 		c.Count("replica_runs", 1)
+		bclass := "ordinary-block"
+		if blk.Header.Flags().HasFlag(types.ValidationFinished) {
+			bclass = "epoch-finishing-block"
+		}
 		cmp := func(kind, variant string, o obs, fullImage bool) bool {
 			c.Count("replica_runs", 1)
 			if !o.sameResult(canon) || fullImage && o.Image != canon.Image {
-				c.Violation("diverges:"+kind+":"+variantClass(variant), fmt.Sprintf("applying the same block (height %d, flags %d, %d txs) gives a different result on a replica that differs only in %s=%s:\n    canonical: %v\n    variant:   %v", blk.Height(), blk.Header.Flags(), len(blk.Body.Transactions), kind, variant, canon, o), map[string]interface{}{"kind": kind, "variant": variant})
+				key := "diverges:" + kind + ":" + variantClass(variant)
+				if kind == "history" {
+					key += ":" + bclass
+				}
+				c.Violation(key, fmt.Sprintf("applying the same block (height %d, flags %d, %d txs) gives a different result on a replica that differs only in %s=%s:\n    canonical: %v\n    variant:   %v", blk.Height(), blk.Header.Flags(), len(blk.Body.Transactions), kind, variant, canon, o), map[string]interface{}{"kind": kind, "variant": variant})
 				return false
 			}
 			return true
@@ -335,7 +349,9 @@ func newModel(thorough bool) *chainprop.Model {
 		}
 		// 3. wall clock of the validating node
 		for _, d := range []int64{100, 86400} {
-			if !cmp("wall-clock", fmt.Sprintf("+%ds", d), apply(fresh(), t.Now+d), true) {
+			// (the epoch database records the node's own receipt time of answer hashes: the image is
+			// legitimately clock dependent there, the results must not be)
+			if !cmp("wall-clock", fmt.Sprintf("+%ds", d), apply(fresh(), t.Now+d), false) {
 				return false
 			}
 		}
@@ -410,15 +426,12 @@ func newModel(thorough bool) *chainprop.Model {
 			replica.SetTime(t.Now + 3)
 			c.Count("replica_runs", 1)
 			if err := R.Chain.VerifValidateOnFork(blk.Height()-1, blk); err != nil {
-				c.Violation("diverges:history:fork-validation-while-on-sibling", fmt.Sprintf("a node whose head is a sibling (%s) block rejects the block in speculative fork validation: %v", sib, err), nil)
-				return false
+				c.Violation("diverges:history:fork-validation-while-on-"+sib+"-sibling:"+bclass, fmt.Sprintf("a node whose head is a sibling (%s) block rejects the block (height %d, flags %d) in speculative fork validation: %v", sib, blk.Height(), blk.Header.Flags(), err), nil)
 			}
 			if _, err := R.Chain.ResetTo(blk.Height() - 1); err != nil {
 				continue
 			}
-			if !cmp("history", "reorged-from-"+sib+"-sibling", apply(R, t.Now+3), false) {
-				return false
-			}
+			cmp("history", "reorged-from-"+sib+"-sibling", apply(R, t.Now+3), false)
 		}
 		//   proposer-warmed caches: a node that proposed on this state first, then validates
 		func() {
@@ -428,7 +441,7 @@ func newModel(thorough bool) *chainprop.Model {
 			cmp("history", "proposed-first(warm caches)", apply(W, t.Now), true)
 		}()
 		c.Sample(map[string]interface{}{"scenario": t.M.Scn[t.Scn], "trace": c.Labels(), "height": blk.Height(), "flags": blk.Header.Flags(), "order_sites": names})
-		return c.Violations() == 0
+		return true
 	}
 	m.H.Inserted = func(t *chainprop.Trans) bool {
 		bb, _ := t.Block.ToBytes()
@@ -495,9 +508,9 @@ func main() {
 	}
 	run.SetBudget(7*60e9, 40*60e9)
 	timeFunctions(run)
-	depth := 3
+	depth := 2
 	if run.Thorough() {
-		depth = 4
+		depth = 3
 	}
 	chainmc.Explore(run, m, chainmc.Config{Depth: depth, Chunk: 2})
 	run.Set("evaluations", run.Get("replica_runs")+run.Get("time_function_evaluations"))
